@@ -634,3 +634,142 @@ SPECS["C08"] = dict(
         "as quick plus a month beyond the bundled table for every ledger")),
     assumptions=["the expected rate of a key not overridden is read from the bundled XML file on disk by a plain text scan (independent of quick_xml and FxCache)", "amounts: quantity > 0, money >= 0, override rates > 0 unless the configuration leaves the sign free"],
     outside=["directory reading and mtime retrieval beyond the source-extracted read_fx_folder on one scratch directory", "currencies other than USD/EUR/JPY (all share one code path keyed by iso_currency::Currency)", "MCP get_fx_rate"])
+
+
+# ---------------------------------------------------------------------------------------------- converter
+def row(action, sym="A", day=0, spelling="dollar", listed=None, desc=None, same=None, nofee=False):
+    return [action, sym, day, spelling, listed, desc, same, nofee]
+
+
+def conv(i, pid, rows, base="2024-01-10", awards=None, **opts):
+    o = {"rows": rows, "wit": 3}
+    if awards is not None:
+        o["awards"] = awards
+    o.update(opts)
+    return {"id": f"{pid}{i}", "base": base, "lines": [], "opts": o}
+
+
+def fam_c18(tier, seed):
+    import itertools
+    sks = []
+    i = 0
+    acts = ["Buy", "Sell", "Cash Dividend", "Qualified Dividend", "NRA Tax Adj", "NRA Withholding", "Stock Split", "Journal", "Mystery Action"]
+    spell = ["plain", "dollar", "comma"]
+    # every action alone, every spelling, plain and 'as of' dates, missing fees
+    for a in acts + ["Short Term Cap Gain", "Long Term Cap Gain", "Wire Sent"]:
+        for sp in spell:
+            sks.append(conv(i, "a", [row(a, spelling=sp)])); i += 1
+        sks.append(conv(i, "a", [row(a, listed=2)])); i += 1
+        sks.append(conv(i, "a", [row(a, nofee=True)])); i += 1
+    # pairs and triples of rows over two symbols and two days, all row orders explored by the 'perm' variant
+    core = ["Buy", "Sell", "Cash Dividend", "NRA Tax Adj", "Mystery Action", "Journal"]
+    for a1, a2 in itertools.product(core, repeat=2):
+        for d2 in (0, 1):
+            for s2 in ("A", "B"):
+                sks.append(conv(i, "p", [row(a1), row(a2, sym=s2, day=d2)], variant="perm")); i += 1
+    # cancel rows: before/after their sell, identical sells, almost identical sells, unmatched
+    S, C, B = "Sell", "Cancel Sell", "Buy"
+    cancel_sets = [
+        [row(B), row(S, day=1), row(C, day=1, same=1)],
+        [row(B), row(C, day=1), row(S, day=1, same=1)],
+        [row(B), row(S, day=1), row(S, day=1, same=1), row(C, day=1, same=1)],
+        [row(B), row(S, day=1), row(S, day=1), row(C, day=1, same=1)],
+        [row(B), row(S, day=1), row(S, day=1), row(C, day=1)],
+        [row(B), row(S, day=1), row(C, day=1)],
+        [row(B), row(S, day=1), row(C, day=2, same=1)],
+        [row(B), row(S, day=1), row(C, day=1, sym="B", same=1)],
+        [row(B), row(S, day=1), row(C, day=1, same=1), row(C, day=1, same=1)],
+        [row(B), row(S, day=1), row(C, day=1, same=1, listed=3)],
+        [row(B), row(S, day=1, listed=3), row(C, day=1, same=1)],
+    ]
+    for rs in cancel_sets:
+        sks.append(conv(i, "c", rs, variant="perm")); i += 1
+    # dividends with several withholding rows, several dividend rows on one day, withholding without dividend
+    D, QD, T, W = "Cash Dividend", "Qualified Dividend", "NRA Tax Adj", "NRA Withholding"
+    div_sets = [
+        [row(D), row(T)], [row(D), row(T), row(W)], [row(D), row(QD), row(T)], [row(D), row(D), row(T)], [row(T), row(D), row(QD), row(W)],
+        [row(D), row(T, day=1)], [row(D), row(T, sym="B")], [row(D, sym="A"), row(D, sym="B"), row(T, sym="B")], [row(D), row("Long Term Cap Gain"), row(W)],
+    ]
+    for rs in div_sets:
+        sks.append(conv(i, "d", rs, variant="perm")); i += 1
+    # RSU rows with an awards file (exact date), with trades around them; and without awards
+    aw = [["A", 0, "fmv"], ["B", 1, "vest", 1]]
+    sks.append(conv(i, "r", [row("Stock Plan Activity"), row(S, day=1)], awards=aw, variant="perm")); i += 1
+    sks.append(conv(i, "r", [row("Stock Plan Activity"), row("Stock Plan Activity", sym="B", day=1), row(S, day=30)], awards=aw, variant="perm")); i += 1
+    sks.append(conv(i, "r", [row("Stock Plan Activity"), row(S, day=1)])); i += 1
+    sks.append(conv(i, "r", [row("Stock Plan Activity", sym="a")], awards=aw)); i += 1
+    # chunking: date-disjoint chunks reported together equal the whole (report through the bundled USD rates)
+    chunk_sets = [
+        [row(B), row(S, day=1)], [row(B), row(S, day=30), row(B, day=31)], [row(B), row(S, day=1), row(D, day=1), row(T, day=1)],
+        [row(B), row(B, sym="B"), row(S, day=1), row(S, sym="B", day=2)], [row(B), row(S, day=20), row(S, day=40), row("Mystery Action", day=40)],
+    ]
+    for rs in chunk_sets:
+        sks.append(conv(i, "k", rs, variant="chunks")); i += 1
+        sks.append(conv(i, "k", list(reversed(rs)), variant="chunks")); i += 1
+    sks.append(conv(i, "q", [row(B), row(S, day=1), row(D, day=1)], variant="perm", report=1)); i += 1
+    # free text: the descriptions a broker might emit (concrete samples; the '#' comment line must contain them)
+    for desc in ["multi\nline", "carriage\rreturn", "crlf\r\n2024-01-01 SELL XYZ 100 @ 1.00", "# hash", "tab\tseparated", "2024-01-01 BUY A 1 @ 1", "unicode   separator", "trailing newline\n", "\n", "\x0b\x0c"]:
+        sks.append(conv(i, "t", [row(B), row("Mystery Action", desc=desc), row(S, day=1)])); i += 1
+        sks.append(conv(i, "t", [row("Mystery Action", sym=desc.strip() or "X")])); i += 1
+    if tier == "thorough":
+        for a1, a2, a3 in itertools.product(["Buy", "Sell", "Cash Dividend", "NRA Tax Adj", "Cancel Sell"], repeat=3):
+            sks.append(conv(i, "p3", [row(a1), row(a2, day=1), row(a3, day=1)], variant="perm")); i += 1
+    return sks
+
+
+def fam_c19(tier, seed):
+    sks = []
+    i = 0
+    R = "Stock Plan Activity"
+    # the deposit row sits at day 0 of each base; awards entries at every gap -3..+10 (entry day = -gap)
+    bases = ["2024-03-15", "2024-03-03", "2024-01-04"]  # mid-month, across a month end (leap February), across a year end
+    gaps = list(range(-3, 11))
+    for b in bases:
+        sks.append(conv(i, "n", [row(R)], base=b, awards=[])); i += 1
+        sks.append(conv(i, "n", [row(R)], base=b)); i += 1
+        for g in gaps:
+            for kind in ("fmv", "vest"):
+                aw = [["A", -g, kind, -g]]
+                sks.append(conv(i, "g", [row(R)], base=b, awards=aw)); i += 1
+        # two competing entries
+        for g1 in gaps:
+            for g2 in gaps:
+                if g1 < g2 and (tier == "thorough" or (g1 in (-1, 0, 1, 2, 7) and g2 in (0, 1, 3, 7, 8))):
+                    sks.append(conv(i, "h", [row(R)], base=b, awards=[["A", -g1, "fmv"], ["A", -g2, "fmv"]])); i += 1
+                    sks.append(conv(i, "h", [row(R)], base=b, awards=[["A", -g2, "fmv"], ["A", -g1, "fmv"]])); i += 1
+    b = bases[0]
+    extra = [
+        [["A", 0, "fmv"], ["A", 0, "fmv"]],                       # duplicate dates
+        [["A", -2, "both", -1]],                                   # vest-specific value stored under the vest date, not the parent date
+        [["A", 0, "both", -3]],
+        [["A", -9, "both", -2]],
+        [["B", 0, "fmv"]],                                         # only another symbol
+        [["a", -1, "fmv"]],                                        # mixed case
+        [["A", -1, "empty", None, "Wire Transfer"], ["A", -2, "fmv"]],   # non-vesting cash action with empty details
+        [["A", -1, "empty", None, "Deposit"]],                     # vesting action with empty details: error
+        [["A", -8, "fmv"], ["B", -1, "fmv"]],
+        [["A", 1, "fmv"], ["A", -8, "fmv"]],
+    ]
+    for aw in extra:
+        sks.append(conv(i, "x", [row(R)], base=b, awards=aw)); i += 1
+        sks.append(conv(i, "x", [row(R, sym="a")], base=b, awards=aw)); i += 1
+    # two deposits sharing one entry; deposit plus sale
+    sks.append(conv(i, "y", [row(R), row(R, day=2)], base=b, awards=[["A", -1, "fmv"]])); i += 1
+    sks.append(conv(i, "y", [row(R), row("Sell", day=1)], base=b, awards=[["A", -3, "vest", -3]])); i += 1
+    return sks
+
+
+SPECS.update({
+    "C18": dict(id="C18", families=fam_c18, chunk=1, entry_points=["cgt_converter::schwab::SchwabConverter::convert (parse_transactions_json, process_transactions, apply_cancellations)", "cgt_converter::schwab::parse_dollar_amount / transactions::parse_date", "cgt_converter::output::{format_trade,format_dividend,format_comment,generate_header}", "cgt_converter::schwab::awards::{parse_awards_json,get_fmv}", "cgt_core::parser::parse_file", "cgt_core::calculator::calculate (chunks / row order reports)"],
+                bounds=bounds_rel((
+                    "exports of 1..4 rows over the actions Buy, Sell, Cancel Sell, Stock Plan Activity, four dividend kinds, two withholding kinds, Stock Split, Journal/Wire Sent, an unknown action; symbols {A,B}, days {0,1,2,30,31,40}, plain and 'as of' dates, amounts spelled plain / $ / $ with thousands commas / blank fees; every quantity, price, fee and amount symbolic; all pairs of 6 core actions; 11 cancel configurations, 9 dividend/withholding configurations, RSU rows with/without awards; row orders: reversal, rotation and all adjacent swaps; all cuts into two date-disjoint chunks for 10 exports; 10 hostile free-text descriptions (concrete samples)",
+                    "as quick plus all triples of 5 actions")),
+                assumptions=["an identical sell is one with equal date, symbol, quantity and price (decided symbolically, so 'two identical sells, one cancel' and 'almost identical' are both explored)", "a withholding row with no same-day dividend of its symbol is dropped by the tool and pinned so by the suite: only 'same-day withholding keeps its total' is demanded", "free text: concrete samples only (the claim 'whatever the free-text fields contain' is not decided for all strings)"],
+                outside=["arbitrary JSON shapes", "descriptions beyond the listed samples", "dividend rows with a blank amount"]),
+    "C19": dict(id="C19", families=fam_c19, entry_points=["cgt_converter::schwab::awards::{parse_awards_json, extract_award_fmv, classify_award_action, AwardsData::get_fmv}", "cgt_converter::schwab::process_transactions (StockPlanActivity arm)", "cgt_core::parser::parse_file"],
+                bounds=bounds_rel((
+                    "one deposit row against awards files with one entry at every gap -3..+10 days (vest-specific and fallback price fields), two competing entries at selected gap pairs in both file orders, at three calendar positions (mid-month, across the end of a leap February, across a year end); duplicate dates, vest date differing from the parent date, other symbol, mixed case, cash actions with empty details, vesting action with empty details, no awards file; market values and quantities symbolic. The date gap is a small discrete domain that is ENUMERATED (chrono dates cannot be symbolic here); the solver decides which price term reaches the output",
+                    "as quick with all gap pairs")),
+                assumptions=["later entries of the same (symbol, date) replace earlier ones (pinned by the suite)"],
+                outside=["gaps beyond -3..+10 days", "more than two competing entries"]),
+})
